@@ -101,6 +101,8 @@ impl Out {
         if *c <= 300 && self.n_fail <= 20000 {
             let j = serde_json::json!({"class": class, "input": input, "detail": detail});
             writeln!(self.oracle, "{j}").unwrap();
+            // durable at once: a search pass that is stopped by its time limit must not lose what it found
+            self.oracle.flush().unwrap();
         }
     }
     pub fn stat(&mut self, k: &str) {
